@@ -39,8 +39,13 @@ def gen(seed, tier, insts, replay=None):
         conv = [(l, None) for l in conv]
     else:
         for i in insts:
-            sk, ssp, t, dk, dsp, u, r = i
+            sk, ssp, t, dk, dsp, u, r, spat, dpat = i
             exts = list(itertools.product(range(0, 4), repeat=r)); n = 3 if not thorough else 12
+            if spat is not None:
+                # static / mixed patterns: values must agree with every static extent on either side; positions dynamic on both sides vary
+                shp = G.shape_of(i)
+                exts = [tuple(x if x is not None else rnd.choice([0, 1, 2, 3, 4]) for x in shp) for _ in range(2 if not thorough else 5)]
+                exts = list(dict.fromkeys(exts))
             for es in (exts if len(exts) <= n else rnd.sample(exts, n)):
                 es = list(es)
                 idx = ';'.join(C.fmt(list(x)) if r else 'e' for x in itertools.product(*[range(e) for e in es])) or '-'
@@ -58,7 +63,9 @@ def gen(seed, tier, insts, replay=None):
                     es2 = list(es)
                     mode = rnd.choice(['same', 'same', 'ext', 'str', 'wrap'])
                     wrapv = 2 ** min(C.ITYPES[t][0], C.ITYPES[u][0])      # congruent modulo the narrower index type: must compare unequal
-                    if mode == 'ext' and r: es2[rnd.randrange(r)] += 1
+                    if mode == 'ext' and r:
+                        kx = rnd.randrange(r)
+                        if dpat is None or dpat[kx] is None: es2[kx] += 1
                     b = dict(ext2=es2)
                     if dk == 'stride':
                         s2 = list(a_str) if len(a_str) == len(es2) else lstr(es2)
@@ -76,7 +83,7 @@ def gen(seed, tier, insts, replay=None):
 
 def check(prop, tier, seed, replay=None):
     rep = C.Report(prop, tier, seed); audit = C.proof_audit(prop); rnd = random.Random(seed); thorough = tier == 'thorough'
-    rep.cov['rule'] = ('ordered pairs of mapping types: 9 layouts (left, right, stride, left/right_padded with dynamic, 2, 4 padding) x 6 index-type pairs x rank 0-3, all-dynamic extents; '
+    rep.cov['rule'] = ('ordered pairs of mapping types: 9 layouts (left, right, stride, left/right_padded with dynamic, 2, 4 padding) x 6 index-type pairs x rank 0-3, all-dynamic extents, plus 654 instantiations with static / mixed extents patterns on source and target (values consistent with the static extents); '
                        'extents in {0..3}, strides canonical for every target layout and generic chains, paddings none/1/2/extent; every multi-index of the small index space evaluated on source and target; '
                        'comparison (== and !=) for every pair with a direct operator==; conversions are executed only where the Lean predicate ConvPre holds; non-trivial = rank>=1 and non-empty index space')
     conv, eqs = gen(seed, tier, G.instances(), replay)
@@ -131,5 +138,5 @@ def check(prop, tier, seed, replay=None):
                     rep.violation(dict(kind='a-mapping-does-not-equal-an-identically-constructed-one', impl=xi, **pub)); continue
     rep.notes['conversion_pairs_exercised'] = {'%s->%s' % k: v for k, v in sorted(pairs_seen.items())}
     rep.notes['configs'] = configs
-    rep.assumptions = ['static extents / static padded strides in conversions (Mandates) are a C16 matter; this family uses all-dynamic extents', 'values small enough to be representable in both index types']
+    rep.assumptions = ['rejected static combinations (Mandates) are a C16 matter; the static-pattern instantiations here use values that satisfy them', 'values small enough to be representable in both index types']
     return rep.finish(audit)
